@@ -31,6 +31,14 @@ var ErrUnreachable = errors.New("verif: node unreachable")
 type Fault func(target uint64, method string) int
 
 type Ring struct {
+	// paused join (C09): the joiner's goroutine blocks at its first cross-node call after
+	// RequestToJoin returned, i.e. with neighbour pointers assigned and an empty finger table
+	pauseArmed bool
+	pauseSeen  bool
+	paused     chan struct{}
+	resume     chan struct{}
+	joinDone   chan string
+
 	mu      sync.Mutex
 	nodes   map[uint64]*impl.LocalNode
 	wraps   map[uint64]*W
@@ -114,6 +122,18 @@ var _ chord.VNode = (*W)(nil)
 // pre returns an error when the call must fail before delivery; post reports response loss.
 func (w *W) gate(method string) (pre error, lose bool) {
 	w.r.mu.Lock()
+	if w.r.pauseArmed {
+		if method == "RequestToJoin" {
+			w.r.pauseSeen = true
+		} else if w.r.pauseSeen && (method == "GetPredecessor" || method == "GetSuccessors") {
+			w.r.pauseArmed = false
+			paused, resume := w.r.paused, w.r.resume
+			w.r.mu.Unlock()
+			close(paused)
+			<-resume
+			w.r.mu.Lock()
+		}
+	}
 	defer w.r.mu.Unlock()
 	if w.r.LogRPC {
 		w.r.Calls = append(w.r.Calls, method+"@"+strconv.FormatUint(w.inner.ID(), 10))
@@ -500,6 +520,83 @@ func (r *Ring) Exec(t []string) string {
 		return withTimeout(opTimeout, func() string { return ErrName(r.Node(u(1)).Join(r.Wrap(u(2)))) })
 	case "leave":
 		return r.leave(u(1))
+	case "joinbegin":
+		r.mu.Lock()
+		r.pauseArmed, r.pauseSeen = true, false
+		r.paused, r.resume, r.joinDone = make(chan struct{}), make(chan struct{}), make(chan string, 1)
+		paused, done := r.paused, r.joinDone
+		r.mu.Unlock()
+		j, peer := r.Node(u(1)), r.Wrap(u(2))
+		go func() {
+			defer func() {
+				if p := recover(); p != nil {
+					done <- "err:PANIC"
+				}
+			}()
+			done <- ErrName(j.Join(peer))
+		}()
+		select {
+		case <-paused:
+			return "ok"
+		case res := <-done: // failed before reaching the pause point
+			r.mu.Lock()
+			r.pauseArmed = false
+			r.mu.Unlock()
+			done <- res
+			return res
+		case <-time.After(opTimeout):
+			return "timeout"
+		}
+	case "joinend":
+		r.mu.Lock()
+		resume, done := r.resume, r.joinDone
+		r.mu.Unlock()
+		select {
+		case <-r.paused:
+			close(resume)
+		default:
+		}
+		select {
+		case res := <-done:
+			if res == "ok" {
+				return "ok"
+			}
+			return "ok" // the model's joinend has no result of its own; a failed join was reported by joinbegin
+		case <-time.After(opTimeout):
+			return "timeout"
+		}
+	case "setpred":
+		if t[2] == "nil" {
+			r.Node(u(1)).VerifSetPred(nil)
+		} else {
+			r.Node(u(1)).VerifSetPred(r.Wrap(u(2)))
+		}
+		return "ok"
+	case "setstate":
+		for _, st := range []chord.State{chord.Inactive, chord.Joining, chord.Active, chord.Transferring, chord.Leaving, chord.Left} {
+			if stateName(st) == t[2] {
+				r.Node(u(1)).VerifSetState(st)
+			}
+		}
+		return "ok"
+	case "setfinger":
+		k, _ := strconv.Atoi(t[2])
+		if t[3] == "nil" {
+			r.Node(u(1)).VerifSetFinger(k, nil)
+		} else {
+			r.Node(u(1)).VerifSetFinger(k, r.Wrap(u(3)))
+		}
+		return "ok"
+	case "setsuccs":
+		var l []chord.VNode
+		if t[2] != "-" {
+			for _, x := range strings.Split(t[2], ",") {
+				id, _ := strconv.ParseUint(x, 10, 64)
+				l = append(l, r.Wrap(id))
+			}
+		}
+		r.Node(u(1)).VerifSetSuccs(l)
+		return "ok"
 	case "stabilize":
 		return withTimeout(opTimeout, func() string { r.Node(u(1)).VerifStabilize(); return "ok" })
 	case "fixfinger":
